@@ -148,7 +148,7 @@ def main():
              'kind_free_text': 'TLC send/log model, one implementation test per transition on real objects with a reporting peer'},
             {'name': 'lifecycle', 'path': 'spec/Lifecycle.tla spec/LifecycleTrace.tla harness/lifeworld.py harness/lifecases.py harness/checks/lifecycle.py', 'serves_properties': ['C09', 'C10'],
              'kind_free_text': 'TLC lifecycle model + TLC trace validation of operation sequences on real children'},
-            {'name': 'screen', 'path': 'spec/Screen.tla spec/AnsiFsm.tla spec/ScreenAnsiTrace.tla harness/checks/screen_ansi.py', 'serves_properties': ['C18', 'C19'],
+            {'name': 'screen', 'path': 'spec/Screen.tla spec/AnsiFsm.tla spec/ScreenAnsiTrace.tla spec/FsmLib.tla spec/FsmTrace.tla harness/checks/screen_ansi.py harness/checks/fsmlib.py', 'serves_properties': ['C18', 'C19'],
              'kind_free_text': 'TLC reference grid / parser FSM, one implementation test per transition, TLC trace validation of random sequences'},
             {'name': 'patternforms', 'path': 'spec/PatternForms.tla harness/checks/c20.py', 'serves_properties': ['C20'],
              'kind_free_text': 'TLC-enumerated decision table, one implementation test per row'},
